@@ -32,6 +32,8 @@ pub struct Family {
     pub hex: bool,
     /// column names differing only in case, non-ASCII, longer than 64 bytes, sorting first / last
     pub odd_names: bool,
+    /// long repetitive strings / names: packed-string columns that get LZ4-compressed
+    pub compressible: bool,
     pub restarts: bool,
     pub evicts: bool,
     pub bursts: bool,
@@ -44,21 +46,26 @@ pub struct Family {
 const WORDS: [&str; 8] = ["north", "south", "quartz", "zulu", "yankee-7", "kilo", "Upper Case", "mañana"];
 const FLOATS: [f64; 6] = [0.5, 1.0, -2.25, 1e10, 3.0, 1234.5678];
 
-fn long_name() -> String {
-    let mut s = String::from("long_");
-    while s.len() < 70 {
-        s.push_str("abcdefghij");
+/// a name longer than 64 bytes; the repetitive variant is what LZ4 compresses below 0.9 (finding F28)
+fn long_name(compressible: bool) -> String {
+    if compressible {
+        let mut s = String::from("long_");
+        while s.len() < 70 {
+            s.push_str("abcdefghij");
+        }
+        s
+    } else {
+        "long_qwertyuiopasdfghjklzxcvbnm0123456789_mnbvcxzlkjhgfdsapoiuytrewq9876543210".to_string()
     }
-    s
 }
 
 /// (name, kind) kind: 0 int, 1 string, 2 float
-fn pool(odd: bool) -> Vec<(String, u8)> {
+fn pool(odd: bool, compressible: bool) -> Vec<(String, u8)> {
     let mut v = vec![("a".to_string(), 0u8), ("b".to_string(), 1), ("c".to_string(), 2), ("d".to_string(), 0)];
     if odd {
         v.push(("A".to_string(), 0));
         v.push(("é".to_string(), 1));
-        v.push((long_name(), 0));
+        v.push((long_name(compressible), 0));
         v.push(("!first".to_string(), 0));
         v.push(("~last".to_string(), 1));
         v.push(("_meta_like".to_string(), 0));
@@ -66,7 +73,7 @@ fn pool(odd: bool) -> Vec<(String, u8)> {
     v
 }
 
-fn cell(r: &mut Rng, kind: u8, hex: bool, row_id: i64) -> Sx {
+fn cell(r: &mut Rng, kind: u8, hex: bool, compressible: bool, row_id: i64) -> Sx {
     match kind {
         0 => {
             let v = match r.below(6) {
@@ -80,6 +87,8 @@ fn cell(r: &mut Rng, kind: u8, hex: bool, row_id: i64) -> Sx {
         1 => {
             let s = if hex {
                 format!("{:012x}", r.next() & 0xffff_ffff_ffff)
+            } else if compressible {
+                format!("{}{}", "abcdefghij".repeat(7), row_id)
             } else {
                 WORDS[r.below(WORDS.len() as u64) as usize].to_string()
             };
@@ -100,7 +109,7 @@ pub struct HistGen<'f> {
 
 impl<'f> HistGen<'f> {
     fn pick_cols(&self, r: &mut Rng) -> Vec<(String, u8)> {
-        let p = pool(self.fam.odd_names);
+        let p = pool(self.fam.odd_names, self.fam.compressible);
         let mut v: Vec<(String, u8)> = p.into_iter().filter(|_| r.chance(1, 2)).collect();
         if v.len() > 5 {
             v.truncate(5);
@@ -145,7 +154,7 @@ impl<'f> HistGen<'f> {
                     if all_null || (self.fam.nulls && r.chance(1, 3)) {
                         a("n")
                     } else {
-                        cell(r, k, self.fam.hex, start + i as i64)
+                        cell(r, k, self.fam.hex, self.fam.compressible && !self.fam.odd_names, start + i as i64)
                     }
                 })
                 .collect();
